@@ -426,6 +426,25 @@ def main():
 ''')
 
 
+P('mutate_and_return', '''
+DATA = {}
+def build(acc, n):
+    for i in range(n):
+        acc.append(i * 10)
+    return acc
+def fill(table):
+    table['k'] = 'v'
+    table['n'] = 2
+    return table
+def main():
+    r = build([], 3)
+    t = fill({})
+    DATA['r'] = (len(r), len(t))
+    out('mutate_and_return', len(r), len(t))
+    return len(r) + len(t)
+''')
+
+
 P('observed_access', '''
 DATA = {}
 class AuditedSettings(dict):
